@@ -439,7 +439,7 @@ class Gen(object):
         pre = '' if compact else ' '
         out = [self.E(left), self.T(op, 'op', pre=pre)] + self.sp([self.E(right)], pre)
         need = force or (noeq and ('=' in op or op in ('&&', '||'))) or \
-            (operand and self.p(0.5))
+            (operand and self.r.randrange(10) in (1, 3, 5, 7))
         if need:
             return self.parens(out)
         if operand:
@@ -515,8 +515,8 @@ class Gen(object):
             return self.expr(d)
         op = self.pick(CMP_OPS[:-1] + ['&&', '||'])
         self.feat('op:' + op)
-        return [('E', self.expr(d + 1, operand=True)), self.T(op, 'op', pre=' ')] + \
-            self.sp([('E', self.expr(d + 1, operand=True))])
+        return [self.E(self.expr(d + 1, operand=True)), self.T(op, 'op', pre=' ')] + \
+            self.sp([self.E(self.expr(d + 1, operand=True))])
 
     def combine_expr(self, d):
         self.feat('combine_keyword')
@@ -591,8 +591,8 @@ class Gen(object):
             # not '=': `a + b = c` is tried as a concise combine `lhs Op= value` first
             op = self.pick(CMP_OPS[:-1])
             self.feat('op:' + op)
-            return [('E', self.expr(d + 1, operand=True)), self.T(op, 'op', pre=' ')] + \
-                self.sp([('E', self.expr(d + 1, operand=True))])
+            return [self.E(self.expr(d + 1, operand=True)), self.T(op, 'op', pre=' ')] + \
+                self.sp([self.E(self.expr(d + 1, operand=True))])
         if k < 11:
             self.feat('inclusion')
             return [('E', self.expr(d + 1, operand=True, force=True)), self.T(' in ', 'kw'),
@@ -608,8 +608,13 @@ class Gen(object):
                 [self.T(')', 'close')]
         if k < 15:
             self.feat('disjunction')
-            parts = [self.conj(d + 1, self.pick([1, 1, 2]))
-                     for _ in range(self.pick([2, 2, 3]))]
+            # inside ~(..) / {.. :- ..} / (.. :- ..) the body is split on ',' before '|':
+            # a disjunct with several conjuncts needs its own parentheses
+            parts = []
+            for _ in range(self.pick([2, 2, 3])):
+                n = self.pick([1, 1, 2])
+                c = self.conj(d + 1, n)
+                parts.append(self.parens(c) if n > 1 else c)
             out = [('P', parts[0])]
             for pp in parts[1:]:
                 compact = self.p(0.2)
@@ -632,7 +637,7 @@ class Gen(object):
             v = [self.T(self.var(), 'var')]
             rhs = self.ultra_combine(d + 1) if self.p(0.6) else self.expr(d + 1, operand=True)
             return v + [self.T(self.pick(['=', '==']), 'op', pre=' ')] + \
-                self.sp([('E', rhs)])
+                self.sp([self.E(rhs)])
         if k == 19:
             self.feat('prop_implication')
             a = self.conjunct(d + 1, True) if self.p(0.7) else \
@@ -649,8 +654,8 @@ class Gen(object):
         if k == 21:
             op = self.pick(['&&', '||'])
             self.feat('op:' + op)
-            return [('E', self.expr(d + 1, operand=True)), self.T(op, 'op', pre=' ')] + \
-                self.sp([('E', self.expr(d + 1, operand=True))])
+            return [self.E(self.expr(d + 1, operand=True)), self.T(op, 'op', pre=' ')] + \
+                self.sp([self.E(self.expr(d + 1, operand=True))])
         if k == 22:
             self.feat('unary:!')
             if self.p(0.3):
@@ -666,7 +671,7 @@ class Gen(object):
         if k == 24:
             self.feat('functional_value_eq')
             return self.call(d, FUNCS) + [self.T('==', 'op', pre=' ')] + \
-                self.sp([('E', self.expr(d + 1, operand=True))])
+                self.sp([self.E(self.expr(d + 1, operand=True))])
         self.feat('body_call')
         return self.call(d)
 
